@@ -287,6 +287,16 @@ def r01_7(ctx) -> None:
             if n.tag or n.ast is None:
                 continue
             for e in ast.walk(n.ast):
+                if isinstance(e, ast.Compare) and id(e) not in seen and any(isinstance(o, (ast.Eq, ast.NotEq)) for o in e.ops):
+                    # ``item != SENTINEL``: equality runs the item's own __eq__ / __ne__ (an item may equal everything)
+                    ops_ = [e.left] + list(e.comparators)
+                    ks = [{a[0] for a in ctx.vals.expr(u, o, n)} for o in ops_]
+                    if any(k & {"item", "usernext"} for k in ks) and any(k and k <= {"sentinel"} for k in ks):
+                        seen.add(id(e))
+                        ctx.count("item_identity_tests")
+                        ctx.fail("R01.7", u, e, "a private sentinel is told from an item by identity, never by == / != (that would run "
+                                 "the item's own comparison)", node=n, witness="operand origins: " + str([sorted(k) for k in ks]))
+                    continue
                 if not (isinstance(e, ast.Compare) and any(isinstance(o, (ast.Is, ast.IsNot)) for o in e.ops)) or id(e) in seen:
                     continue
                 seen.add(id(e))
